@@ -69,6 +69,15 @@ pub fn supplement_ops() -> Vec<Op> {
         ops.push(Op::AppendAll(s(p), b"q".to_vec()));
         ops.push(Op::AppendLine(s(p), s("z")));
         ops.push(Op::AppendLines(s(p), vec![s("u"), s("v")]));
+        // empty and terminator-carrying elements: the wrapper must hand the list over as it is
+        ops.push(Op::AppendLines(s(p), vec![s("u"), s(""), s("v")]));
+        ops.push(Op::AppendLines(s(p), vec![s(""), s("")]));
+        ops.push(Op::AppendLines(s(p), vec![]));
+        ops.push(Op::WriteLines(s(p), vec![s(""), s("x\n"), s("")]));
+        ops.push(Op::WriteLines(s(p), vec![]));
+        ops.push(Op::AppendLine(s(p), s("")));
+        ops.push(Op::WriteAll(s(p), vec![]));
+        ops.push(Op::AppendAll(s(p), vec![]));
         ops.push(Op::WriteHandle(s(p), vec![b"h".to_vec(), b"i".to_vec()], vec![true, false]));
         ops.push(Op::AppendHandle(s(p), vec![b"j".to_vec()], vec![false]));
         ops.push(Op::Remove(s(p)));
